@@ -41,6 +41,7 @@ THEOREMS = [
     ("DSP.C12", "C12_release_total"),      # recursive release terminates on every store, cyclic ones included
     ("DSP.C17", "C17_json_fuel"),          # json collection round trip never runs out of fuel on allocator-built stores
     ("DSP.C14", "C14_fuel"),               # include parsing: any fuel above the tree depth gives the same result (acyclic trees)
+    ("DSP.C04ix", "C04_ix_total"),         # index-faithful find_commands (instructions[line], i32 block_delta, nested recursion): no panic, no fuel exhaustion, any vector / table / start / end
 ]
 EXCLUDED = ("read sleep exec spawn exit quit q watchdog http_client wget ftp_get ftp_get_in_memory ftp_list ftp_nlst "
             "ftp_put ftp_put_in_memory hostname cd set_current_dir set_current_directory cp cp_glob glob_cp mv rm rmdir mkdir "
@@ -356,7 +357,8 @@ def run(ck):
     # checked arithmetic is an explicit panic arm of the generated function, and the equality with the (panic-free) hand model
     # shows the arm dead for all inputs (Src_strings_*: `defined`, Src_onerror_*: `Some`, Src_cli_dispatch: `Some`,
     # Src_condslice_total, Src_eval_instructions_step_no_panic, Src_parser_* over the index-faithful parser ...)
-    for tie in ("parser", "expand", "registry", "cond", "condslice", "runner", "eval", "alias", "onerror", "strings", "cli"):
+    for tie in ("parser", "expand", "registry", "cond", "condslice", "runner", "eval", "alias", "onerror", "strings", "cli",
+                "findcmds", "collections", "var", "include"):
         try:
             ck.source_tie(tie)
         except KeyError:
